@@ -323,13 +323,19 @@ def kgraph_shard(args):
                 pass
         reqs.append({"cmd": "chain", "g": graphx.to_lean(nodes), "starts": [nd["uid"] for nd in starts],
                      "groups": [[starts[k]["uid"] for k in grp] for grp in groups]})
-        meta.append((spec, [l[0] for l in live.log], nodes, starts, reals, history.has_shared_job(live.spec), groups, greals))
+        meta.append((spec, [l[0] for l in live.log], nodes, starts, reals, history.has_shared_job(live.spec), groups, greals, issues))
         out["cases"] += 1
     answers = run_lean(reqs) if reqs else []
-    for (spec, ops, nodes, starts, reals, shared, groups, greals), ans in zip(meta, answers):
+    for (spec, ops, nodes, starts, reals, shared, groups, greals, issues), ans in zip(meta, answers):
         if "bad" in ans:
             out["disagreements"].append({"why": "driver: " + ans["bad"], "spec": spec})
             continue
+        # the invariant of the inspectable graph, evaluated by Lean on the exported graph vs the direct Python check
+        if ans.get("inv") is not None and bool(ans["inv"]) != (not issues):
+            out["disagreements"].append({"why": f"graph invariant: Lean says {ans['inv']} (bidirectional {ans.get('bidirectional')}, live {ans.get('liveOnly')}, "
+                                                f"acyclic {ans.get('acyclic')}), direct check finds {issues[:2]}", "spec": spec, "ops": ops})
+        elif ans.get("inv") is False:
+            out["rejected_guarded"].append({"why": f"graph invariant violated after an accepted history: {issues[:2]}", "spec": spec, "ops": ops})
         sidname = {nd["sid"]: nd["sname"] for nd in nodes}
         for nd, r, a in zip(starts, reals, ans["chains"]):
             out["starts"] += 1
